@@ -24,7 +24,7 @@ type pathPass struct {
 	p     *Prog
 	pk    *packages.Package
 	base  func(info *types.Info, n ast.Node) bool // n itself (not its children) is a mark
-	memo  map[*ast.FuncDecl]int                    // 1 always passes, 2 does not, 3 in progress
+	memo  map[*ast.FuncDecl]int                   // 1 always passes, 2 does not, 3 in progress
 	decls map[*types.Func]*ast.FuncDecl
 }
 
